@@ -68,6 +68,29 @@ func buildTemplate(cols []colDesc) jsonline.Template {
 	return t
 }
 
+func dedicatedColumn(t jsonline.Template, name string, f jsonline.Format, typ interface{}) {
+	switch f {
+	case jsonline.String:
+		t.WithMappedString(name, typ)
+	case jsonline.Numeric:
+		t.WithMappedNumeric(name, typ)
+	case jsonline.Boolean:
+		t.WithMappedBoolean(name, typ)
+	case jsonline.Binary:
+		t.WithMappedBinary(name, typ)
+	case jsonline.Date:
+		t.WithMappedDate(name, typ)
+	case jsonline.DateTime:
+		t.WithMappedDateTime(name, typ)
+	case jsonline.Timestamp:
+		t.WithMappedTimestamp(name, typ)
+	case jsonline.Auto:
+		t.WithMappedAuto(name, typ)
+	default:
+		t.With(name, f, typ)
+	}
+}
+
 // one column through the generic builder or through the builder method dedicated to its format (every second column,
 // by a hash of its description): WithString ... WithHidden, WithMappedString ... WithMappedAuto
 func withColumn(t jsonline.Template, c colDesc) {
@@ -1251,6 +1274,25 @@ func (c *templCtx) binaryColumnOracle() {
 				if err == nil {
 					c.violate("C11", fmt.Sprintf("a %d-byte payload is accepted by a binary column mapped to %s (%d bytes)", len(pl), tn, w), ctx)
 				}
+				// a refused payload leaves nothing behind: the same row, used again, does not emit it — whether it was
+				// offered through ImportAtKey or through Set
+				for how := 0; how < 2; how++ {
+					own := tpl.CreateRowEmpty()
+					desc := "ImportAtKey"
+					guard(func() {
+						if how == 0 {
+							_ = own.ImportAtKey("c", base64.StdEncoding.EncodeToString(pl))
+						} else {
+							desc = "Set"
+							own.Set("c", append([]byte(nil), pl...))
+						}
+					})
+					b, merr := own.MarshalJSON()
+					c.rep.OracleChecks["C11"]++
+					if merr == nil && string(b) != `{"c":null}` {
+						c.violate("C11", fmt.Sprintf("after %s refused the %d-byte payload the row emits %s: the column kept an ill-sized payload", desc, len(pl), b), ctx)
+					}
+				}
 				continue
 			}
 			if err != nil || row == nil {
@@ -1271,10 +1313,16 @@ func (c *templCtx) typedRoundTrips() {
 			if t == "" {
 				continue
 			}
-			tpl := jsonline.NewTemplate().With("c", f, typeSample[t])
-			for _, v := range valuesOfType(c.r, t) {
+			tplGeneric := jsonline.NewTemplate().With("c", f, typeSample[t])
+			tplDedicated := jsonline.NewTemplate()
+			dedicatedColumn(tplDedicated, "c", f, typeSample[t])
+			for vi, v := range valuesOfType(c.r, t) {
 				if !inLosslessDomain(f, t, v) {
 					continue
+				}
+				tpl := tplGeneric // every second value goes through the builder method dedicated to the format (WithMappedX)
+				if vi%2 == 1 {
+					tpl = tplDedicated
 				}
 				ctx := map[string]interface{}{"stream": "template", "column": fmt.Sprintf("%s(%s)", strings.ToLower(strings.TrimPrefix(gFormat(f), "F")), t), "value": describe(v), "tz": os.Getenv("TZ")}
 				c.rep.OracleChecks["C13"]++
